@@ -60,13 +60,13 @@ PROPS = {
                  'Props/MachineObjects.lean proves on the whole machine, for every program and every number of steps, that a closed queue stays closed and that its buffer is from then on a suffix of what it was (closed_queue_forever: nothing is stored after close, items leave from the front) and that every queue is FIFO (queue_fifo_forever: after any number of steps the buffer is what it was minus items at the front plus items at the back); that each piece of the machines queue code is the open models transition is proved (Props/MachineQueue.lean); that nothing else in the machine touches a buffer except at its two ends is queue_fifo_forever; the histories (accepted / received) of the open model are not part of a world: which put and which receive an item belongs to is judged on traces'],
     ),
     'C11': dict(
-        gen=['Stream'], props=['C11', 'MachineObjects'], model=['Prim/Stream', 'Machine/Run', 'Judge/Judges', 'Lemmas/KView', 'Lemmas/OView', 'Lemmas/OStepFrames', 'Lemmas/OStep'], harness='c11',
+        gen=['Stream'], props=['C11', 'MachineObjects', 'MachineChannel'], model=['Prim/Stream', 'Machine/Run', 'Judge/Judges', 'Lemmas/KView', 'Lemmas/OView', 'Lemmas/OStepFrames', 'Lemmas/OStep'], harness='c11',
         trusted_base=KERNEL_TB + MACHINE_TB + [
             'shape templates (exact AST match, else broken obligation): Channel.put/__await__/__aiter__/close',
             'prompt finalisation of abandoned async generators (reference counting) is assumed',
         ],
         assumptions=['consumers are identified by their registration key (the sentinel object)'],
-        partial=['Props/MachineObjects.lean proves on the whole machine, for every program and every number of steps, that a closed channel stays closed (closed_channel_forever); that the machine refines the open channel model step by step is not proved (tied by correspondence)'],
+        partial=['Props/MachineObjects.lean proves on the whole machine, for every program and every number of steps, that a closed channel stays closed (closed_channel_forever); that put / subscribe (iteration) / close of the machine are the open models transitions is proved (Props/MachineChannel.lean); deliver and leave (which go through find? on the consumers key) are tied by correspondence only'],
     ),
     'C12': dict(
         gen=['Resources'], props=['C12'], model=['Prim/Resources', 'Machine/Run', 'Judge/Judges'], harness='c12',
@@ -309,7 +309,7 @@ MANIFEST_TEXT = {
         technique='Lean 4 refinement to a FIFO sequence spec + exact whole-machine differential traces + Lean trace judge',
         design_ref='6 (C10), 3, 4.B'),
     'C11': dict(
-        level='On the whole machine, for every program and every number of steps: closed_channel_forever (Props/MachineObjects.lean). Lean 4 theorems over an open channel model for every sequence of subscribe / put / deliver / leave / close actions: '
+        level='The channel code of the whole machine refines the open channel model for every world (Props/MachineChannel.lean: cPut_refines = put to every registered buffer, cIter_refines = subscribe, cClose_refines = close). On the whole machine, for every program and every number of steps: closed_channel_forever (Props/MachineObjects.lean). Lean 4 theorems over an open channel model for every sequence of subscribe / put / deliver / leave / close actions: '
               'broadcast_exact (per consumer: delivered ++ buffered = messages put since its subscription), isolation, '
               'first_after_subscription, deregister_exact, put_on_closed; tied to streams.py by regenerated templates; exact '
               'whole-machine correspondence and Lean judge on implementation traces.',
